@@ -217,6 +217,26 @@ func (s *Server) valid(u *url.URL) (int, []byte) {
 			return 200, head
 		}
 		if r, ok := strings.CutPrefix(p, "tile/1/"); ok {
+			// The Pixel feeder writes the tile index as one decimal number
+			// padded to three digits ("tile/1/0/32767", not tlog's
+			// "x032/767"); the stub serves that form - the external format is
+			// not specified in the repository, so it is taken from the feeder.
+			if lv, rest, ok := strings.Cut(r, "/"); ok && !strings.Contains(rest, "x") {
+				idx, w, partial := rest, "", false
+				if i := strings.Index(rest, ".p/"); i >= 0 {
+					idx, w, partial = rest[:i], rest[i+3:], true
+				}
+				if n, err := strconv.ParseInt(idx, 10, 64); err == nil && len(idx) >= 3 && n >= 1000 {
+					enc := fmt.Sprintf("%03d", n%1000)
+					for n /= 1000; n > 0; n /= 1000 {
+						enc = fmt.Sprintf("x%03d/", n%1000) + enc
+					}
+					r = lv + "/" + enc
+					if partial {
+						r += ".p/" + w
+					}
+				}
+			}
 			return tile(1, r)
 		}
 	case "rekor", "rekor-inactive":
